@@ -16,7 +16,7 @@ RULE = ('Start from a well-typed boolean term (typed generator over a random sch
         'TypeError at the expression, condition and predicate entry points (mode b: predicate entry points only) and '
         'inside event predicates of properties. Non-trivial by construction; distinct = (mode, parent operator or '
         'function, slot, injected kind, depth).')
-RULE_ADDED = ' Since the seeding rounds: mode (c) - a bound variable required at two disjoint kinds (five nesting shapes, literal domains) with a well-typed twin; own-alias spelling of the second use.'
+RULE_ADDED = ' Since the seeding rounds: mode (c) - a bound variable required at two disjoint kinds (five nesting shapes, literal domains, set domains of operator/function results) with a well-typed twin; own-alias spelling of the second use.'
 ASSUMPTIONS = ['clashes mediated only by equality between two different references are not injected; "definite" means '
                'fixed by a parameter of a single base type in my signature tables (Appendix A.2/A.3)']
 FLOORS = {
@@ -289,7 +289,17 @@ def inject_bound_clash(rng, e):
         Kd = gen.pick(rng, ('NUMBER', 'NUMBER', 'STRING', 'BOOL'))
         lits = {'NUMBER': (A.num('1'), A.num('2')), 'STRING': (A.string('a'), A.string('b')),
                 'BOOL': (A.boolean(True), A.boolean(False))}[Kd]
-        ldom = ('range', A.num('0'), A.num('3'), False, False) if (Kd == 'NUMBER' and rng.random() < 0.5) else ('set', lits)
+        if rng.random() < 0.4:
+            # members that are not literals but whose kind is just as definite: negative numbers, operator and
+            # function results (over literals or over fields)
+            derived = {'NUMBER': (A.neg(A.num('1')), ('bin', '+', A.fld('qn'), A.num('1')), ('call', 'len', (A.fld('qarr'),)),
+                                  ('bin', '*', A.num('2'), A.num('3'))),
+                       'STRING': (('call', 'str', (A.fld('qn'),)), ('call', 'str', (A.num('1'),))),
+                       'BOOL': (A.not_(A.fld('qb')), ('bin', '<', A.fld('qn'), A.num('2')), ('bin', 'and', A.fld('qb'), A.fld('qc')))}[Kd]
+            lits = tuple(gen.pick(rng, derived if rng.random() < 0.6 else lits) for _ in range(rng.randrange(1, 4)))
+            if all(m[0] == 'lit' for m in lits):
+                lits = lits + (gen.pick(rng, derived),)
+        ldom = ('range', A.num('0'), A.num('3'), False, False) if (Kd == 'NUMBER' and rng.random() < 0.3) else ('set', lits)
         Kc = gen.pick(rng, [k for k in ('BOOL', 'NUMBER', 'STRING') if k != Kd])
         generic = gen.pick(rng, (('bin', '=', A.var(v), A.fld('qg')), ('bin', 'in', A.var(v), ('set', (A.fld('qg'), A.fld('qh')))),
                                  ('bin', '!=', A.fld('qg'), A.var(v))))
